@@ -234,6 +234,8 @@ int corpus_freeze(const std::string& dir) {
     std::string o = r->observe();
     bool ws = proto->bytes(0, e.variant) == img;
     same += ws;
+    if (e.frozen && vf::fnv1a(o) != e.obs_hash) printf("OBSERVATION CHANGED since the last freeze: %s\n", e.file.c_str());
+    if (e.frozen && ws != e.writer_same) printf("writer %s the baseline bytes now: %s\n", ws ? "reproduces" : "no longer reproduces", e.file.c_str());
     char h[32]; snprintf(h, sizeof h, "%llx", static_cast<unsigned long long>(vf::fnv1a(o)));
     out << "image " << e.file << " " << e.variant << " " << h << " " << (ws ? 1 : 0) << "\n" << e.recipe << "end\n";
   }
